@@ -139,7 +139,7 @@ OPTION_DOMAINS = dict(
     enable_summary=(None, True, False),
     enable_summary_for_str=(True, False),
     max_summary_len_for_str=(80, 6),
-    keys=('all', 'exclude-b', 'include-a'),
+    keys=('all', 'exclude-b', 'include-a', 'fn-include-all', 'fn-exclude-none', 'fn-by-last-key'),
     uncollapse=(None, 'a'),
     debug=(False, True),
 )
@@ -167,6 +167,22 @@ def kwargs_of(opts):
     kw['exclude_keys'] = ['b']
   elif opts['keys'] == 'include-a':
     kw['include_keys'] = ['a']
+  elif opts['keys'] == 'fn-include-all':
+    kw['include_keys'] = lambda k, v, p: True
+  elif opts['keys'] == 'fn-exclude-none':
+    kw['exclude_keys'] = lambda k, v, p: False
+  elif opts['keys'] == 'fn-by-last-key':
+    # keeps exactly the children whose own key (the last key of the path handed to the filter) is a key of its parent
+    def keep(k, v, p):
+      last = k.key
+      if isinstance(p, dict):
+        return last in p
+      if isinstance(p, (list, tuple)):
+        return isinstance(last, int) and 0 <= last < len(p)
+      if isinstance(p, pg.Object):
+        return p.sym_hasattr(last)
+      return True
+    kw['include_keys'] = keep
   if kw.get('uncollapse') is None:
     kw.pop('uncollapse')
   else:
@@ -195,6 +211,14 @@ def render_item(rec, item):
         rec.viol(f'value-modified-by-rendering/{shape}', f'{h!r} with {opts}', tr)
       p, q = parse(doc), parse(tdoc)
       pos = shape
+      if opts['keys'].startswith('fn-') and not opts['debug']:       # (the debug dump prints the options, incl. the filter object)
+        # a filter function that keeps every child must give the very document rendered without a filter
+        try:
+          plain_doc = pg.to_html_str(build(shape, h, False), **{k: x for k, x in kw.items() if k not in ('include_keys', 'exclude_keys')})
+          if plain_doc != doc:
+            rec.viol(f'keep-all-filter-changes-document/{opts["keys"]}/{pos}', f'{h!r} in {shape} with {opts}: {len(doc)} vs {len(plain_doc)} chars', tr)
+        except Exception as e:  # pylint: disable=broad-except
+          rec.viol(f'render-raises:{type(e).__name__}/{shape}', f'{h!r} with {opts}: {e}', tr)
       bad = False
       if p.errors:
         rec.viol(f'malformed-document/{pos}', f'{h!r} in {shape} with {opts}: {p.errors[:2]}', tr); bad = True
@@ -210,7 +234,7 @@ def render_item(rec, item):
           break
       # presence of keys and leaves (unless an option hides them)
       text = '\n'.join(p.text) + '\n' + '\n'.join(p.attr_values)
-      hidden = opts['keys'] != 'all'
+      hidden = opts['keys'] in ('exclude-b', 'include-a')
       keys_hidden = opts['key_style'] == 'summary' and (opts['enable_summary'] is False or opts['enable_summary_for_str'] is False)     # keys live in the summaries
       if not hidden:
         for k in ([] if keys_hidden else keys):
